@@ -94,6 +94,21 @@ def param_{L}(name: str, has_default: bool) -> bool:
 def replay_param_{L}(name, has_default):
     return replay_param(name, has_default)
 ''')
+    # Ob7: name=value passed to a template is found by {{{name}}} (numeric-looking names included)
+    for L in (1, 2) if quick else (1, 2, 3):
+        pre = " and ".join(f'name[{i}] in "01a "' for i in range(L)) + " and (" + " or ".join(f'name[{i}] in "01a"' for i in range(L)) + ")"
+        out.append(f'''
+def bind_{L}(name: str) -> bool:
+    """
+    pre: len(name) == {L} and {pre}
+    post: _
+    """
+    return bind_roundtrip(name)
+
+
+def replay_bind_{L}(name):
+    return replay_bind(name)
+''')
     # Ob3: #if / #ifeq with symbolic arguments, #switch over case skeletons
     out.append('''
 def fn_if(a: str, b: str, c: str, n: int) -> bool:
@@ -365,6 +380,7 @@ def run(rep: C.Report) -> None:
             H,
             {
                 "^body_": dict(name="Ob1 only the includable part of a template body is transcluded", functions=["core.py:Wtp._template_to_body"], bounds="4 (thorough 11) body skeletons with one symbolic filler character over {a,space,newline,<,>,-,/} before, between and after the tags"),
+                "^bind_": dict(name="Ob7 an argument passed as name=value is found by {{{name}}}: the expander's key and the reference's key agree", functions=["core.py:Wtp.expand argument loop (AST slice)", "core.py:Wtp.expand.expand_args (AST slice)"], bounds=f"names of 1..{2 if quick else 3} symbolic chars over {{0,1,a,space}}"),
                 "^param_": dict(name="Ob2 parameter references: trimmed name, positional numerals, default, literal when undefined", functions=["core.py:Wtp.expand.expand_args (AST slice)"], bounds=f"names of 1..{3 if quick else 4} symbolic chars over {{space,1,2,a,b,newline}}, with/without default, fixed argument map"),
                 "^fn_|^sw_": dict(name="Ob3 #if / #ifeq / #switch follow the ParserFunctions rules", functions=["parserfns.py:if_fn", "parserfns.py:ifeq_fn", "parserfns.py:switch_fn"], bounds=f"#if/#ifeq: 0..4 arguments <= 2 symbolic chars; #switch: every case skeleton of 1..{2 if quick else 3} items over {{k=v, fall-through, #default=v, #default}} with symbolic keys and value"),
                 "^autonewline": dict(name="Ob4 automatic newline before list/table markers", functions=["common.py:add_newline_to_expansion"], bounds="t <= 3 symbolic chars (full Unicode)"),
